@@ -185,6 +185,8 @@ func makeSyncKey(allData map[region]io.Writer) string {
 }
 
 func (b *blob) cacheAt(offset int64, size int64, fr fetcher, cacheOpts *options) error {
+	verifCacheAtPoint("lookup", offset)
+	defer verifCacheAtPoint("exit", offset)
 	fetchReg := region{floor(offset, b.chunkSize), ceil(offset+size-1, b.chunkSize) - 1}
 	discard := make(map[region]io.Writer)
 
@@ -199,6 +201,7 @@ func (b *blob) cacheAt(offset int64, size int64, fr fetcher, cacheOpts *options)
 		return err
 	}
 
+	verifCacheAtPoint("fetch", offset)
 	return b.fetchRange(discard, cacheOpts)
 }
 
